@@ -47,6 +47,12 @@ def cmdC04 (j : Json) : R Json := do
     let tag ← getStr a[0]!
     match tag with
     | "snap" => outs := outs.push (snapshot s)
+    -- harness-only requests: a quantity that is made later in the history (`new`; in the model the
+    -- identity of a quantity is its index and all of `qs` exist from the start: before it is made no
+    -- request names it and no read of it is compared) and re-seeding a random generator (`reseed`;
+    -- the model has none).  Both leave the store as it is (`C04_unrecorded_zero`, `C04_get_pure`
+    -- say what the later reads must be).
+    | "new" | "reseed" => outs := outs.push (putOut (Out.ok (α := FB)))
     | "reset" =>
       let (s', r) := step s .reset
       s := s'; outs := outs.push (putOut r)
